@@ -683,6 +683,133 @@ theorem reach_of_run {K : Nat} : ∀ (sched : List (Nat × Bool)) (s s' : State)
       exact ih s1 s' (Reach.step p f hr (fun _ => rfl) hs) h
     · cases h
 
+/-- the converse bookkeeping: whoever is recorded as holder of an inode is in its critical section -/
+def LockConv (s : State) : Prop := ∀ i q, s.locks i = some q → holds (s.pc q) i = true
+
+theorem lockConv_init : LockConv init := by intro i q h; simp [init] at h
+
+theorem lockConv_setPc {s s1 : State} {p : Nat} {c' : PC} (hpc1 : s1.pc = s.pc)
+    (h : ∀ i q, s1.locks i = some q → (q ≠ p → holds (s.pc q) i = true) ∧ (q = p → holds c' i = true)) :
+    LockConv (setPc s1 p c') := by
+  intro i q hq
+  have := h i q hq
+  by_cases hqp : q = p
+  · subst hqp; rw [setPc_pc_self]; exact this.2 rfl
+  · rw [setPc_pc_ne _ hqp, hpc1]; exact this.1 hqp
+
+/-- a step that leaves `locks` alone and moves `p` between program counters that hold the same inodes -/
+theorem lockConv_keep {s s1 : State} {p : Nat} {c c' : PC} (g : LockConv s) (hpc : s.pc p = c) (hpc1 : s1.pc = s.pc)
+    (hl : s1.locks = s.locks) (hh : ∀ i, holds c i = true → holds c' i = true) : LockConv (setPc s1 p c') := by
+  apply lockConv_setPc hpc1
+  intro i q hq
+  rw [hl] at hq
+  have := g i q hq
+  refine ⟨fun _ => this, fun e => ?_⟩
+  subst e; rw [hpc] at this; exact hh i this
+
+theorem lockConv_step {K : Nat} {s s' : State} {p : Nat} {f : Bool} (g : LockConv s) (_gi : GInv s)
+    (h : step K s p f = some s') : LockConv s' := by
+  unfold step at h
+  split at h
+  · rename_i hpc; cases h; exact lockConv_keep g hpc rfl rfl (by intro i hi; cases hi)
+  · rename_i hpc
+    split at h
+    · cases h; exact lockConv_keep g hpc rfl rfl (by intro i hi; cases hi)
+    · cases h; exact lockConv_keep g hpc rfl rfl (by intro i hi; cases hi)
+  · rename_i i hpc
+    split at h
+    · rename_i hfree; cases h
+      apply lockConv_setPc rfl
+      intro j q hq
+      by_cases hji : j = i
+      · subst hji
+        simp [setLock] at hq; subst hq
+        exact ⟨fun hne => absurd rfl hne, fun _ => by simp [holds]⟩
+      · simp [setLock, hji] at hq
+        have := g j q hq
+        refine ⟨fun _ => this, fun e => ?_⟩
+        subst e; rw [hpc] at this; cases this
+    · cases h
+  · rename_i i hpc; cases h
+    exact lockConv_keep g hpc rfl rfl (by intro j hj; split <;> simpa [holds] using hj)
+  · rename_i i hpc; cases h
+    exact lockConv_keep g hpc rfl rfl (by intro j hj; simpa [holds] using hj)
+  · rename_i i hpc; cases h
+    exact lockConv_keep g hpc rfl rfl (by intro j hj; simpa [holds] using hj)
+  · rename_i i n hpc
+    split at h
+    · cases h; exact lockConv_keep g hpc rfl rfl (by intro j hj; simpa [holds] using hj)
+    · split at h
+      · cases h; exact lockConv_keep g hpc rfl rfl (by intro j hj; simpa [holds] using hj)
+      · cases h; exact lockConv_keep g hpc rfl rfl (by intro j hj; simpa [holds] using hj)
+  · rename_i i hpc
+    split at h
+    · cases h; exact lockConv_keep g hpc rfl rfl (by intro j hj; simpa [holds] using hj)
+    · cases h; exact lockConv_keep g hpc rfl rfl (by intro j hj; simpa [holds] using hj)
+  · rename_i i hpc
+    split at h
+    · cases h; exact lockConv_keep g hpc rfl rfl (by intro j hj; simpa [holds] using hj)
+    · cases h; exact lockConv_keep g hpc rfl rfl (by intro j hj; simpa [holds] using hj)
+  · rename_i i ok hpc; cases h
+    apply lockConv_setPc rfl
+    intro j q hq
+    by_cases hji : j = i
+    · subst hji; simp [setLock] at hq
+    · simp [setLock, hji] at hq
+      have := g j q hq
+      refine ⟨fun _ => this, fun e => ?_⟩
+      subst e; rw [hpc] at this; simp [holds] at this; exact absurd this.symm hji
+  · rename_i ok hpc; cases h
+    exact lockConv_keep g hpc rfl rfl (by intro j hj; cases hj)
+  · cases h
+
+theorem lockConv_reach {K : Nat} {b : Bool} {s : State} (h : Reach K b s) : LockConv s := by
+  induction h with
+  | init => exact lockConv_init
+  | step p fail hr _ hs ih => exact lockConv_step ih (ginv_reach hr) hs
+
+/-- every program counter except a blocked `flock` and `done` can always move -/
+theorem step_enabled {K : Nat} {s : State} {p : Nat} (f : Bool)
+    (h1 : ∀ ok, s.pc p ≠ .done ok) (h2 : ∀ i, s.pc p = .flock i → s.locks i = none) :
+    ∃ s', step K s p f = some s' := by
+  unfold step
+  split
+  · exact ⟨_, rfl⟩
+  · split <;> exact ⟨_, rfl⟩
+  · rename_i i hpc; simp [h2 i hpc]
+  · exact ⟨_, rfl⟩
+  · exact ⟨_, rfl⟩
+  · exact ⟨_, rfl⟩
+  · split
+    · exact ⟨_, rfl⟩
+    · split <;> exact ⟨_, rfl⟩
+  · split <;> exact ⟨_, rfl⟩
+  · split <;> exact ⟨_, rfl⟩
+  · exact ⟨_, rfl⟩
+  · exact ⟨_, rfl⟩
+  · rename_i ok hpc; exact absurd hpc (h1 ok)
+
+/-- **no deadlock** (with or without failures): as long as some caller has not returned, some caller can move -/
+theorem progress {K : Nat} {b : Bool} {s : State} (hr : Reach K b s) (p : Nat) (hp : ∀ ok, s.pc p ≠ .done ok) :
+    ∃ q s', (∀ ok, s.pc q ≠ .done ok) ∧ step K s q false = some s' := by
+  by_cases hfl : ∃ i, s.pc p = .flock i ∧ s.locks i ≠ none
+  · obtain ⟨i, hpi, hli⟩ := hfl
+    obtain ⟨q, hq⟩ := Option.ne_none_iff_exists'.1 hli
+    have hh := lockConv_reach hr i q hq
+    have hq1 : ∀ ok, s.pc q ≠ .done ok := by
+      intro ok e; rw [e] at hh; cases hh
+    have hq2 : ∀ j, s.pc q = .flock j → s.locks j = none := by
+      intro j e; rw [e] at hh; cases hh
+    obtain ⟨s', hs'⟩ := step_enabled (K := K) false hq1 hq2
+    exact ⟨q, s', hq1, hs'⟩
+  · have h2 : ∀ i, s.pc p = .flock i → s.locks i = none := by
+      intro i e
+      cases hl : s.locks i with
+      | none => rfl
+      | some q => exact absurd ⟨i, e, by rw [hl]; simp⟩ hfl
+    obtain ⟨s', hs'⟩ := step_enabled (K := K) false hp h2
+    exact ⟨p, s', hp, hs'⟩
+
 end LlgoVerif.ExtractLock
 
 
